@@ -23,6 +23,9 @@ type Script struct {
 	// (back-pressure: the peer keeps writing into full queues), then reads everything
 	ServerStallMs int `json:"server_stall_ms,omitempty"`
 	ClientStallMs int `json:"client_stall_ms,omitempty"`
+	// WriteGapUs paces both writers: pause between consecutive Write calls (at most one segment
+	// in flight at a time when the gap exceeds the round-trip time)
+	WriteGapUs int `json:"write_gap_us,omitempty"`
 }
 
 func sum(xs []int) int {
@@ -116,17 +119,26 @@ func reader(conn net.Conn, rng *rand.Rand, seed int64, sess, dir, want, maxRead 
 }
 
 func writer(conn net.Conn, seed int64, sess, dir int, sizes []int, tag []byte, res *DirResult) {
+	writerPaced(conn, seed, sess, dir, sizes, tag, res, 0)
+}
+
+func writerPaced(conn net.Conn, seed int64, sess, dir int, sizes []int, tag []byte, res *DirResult, gapUs int) {
 	off := 0
-	// one buffer re-used for every Write and overwritten as soon as Write returns: io.Writer
-	// implementations must not retain the caller's slice
-	var buf []byte
+	// One buffer is re-used for every Write (io.Writer implementations must not retain the
+	// caller's slice). Even-numbered sessions overwrite it as soon as Write returns; odd-numbered
+	// sessions leave it alone until the next Write refills it (the content then changes between a
+	// first transmission and a later retransmission if the implementation aliased it).
+	maxNeed := len(tag)
+	for _, sz := range sizes {
+		if sz+len(tag) > maxNeed {
+			maxNeed = sz + len(tag)
+		}
+	}
+	buf := make([]byte, maxNeed)
 	for i, sz := range sizes {
 		need := sz
 		if i == 0 {
 			need += len(tag)
-		}
-		if cap(buf) < need {
-			buf = make([]byte, need)
 		}
 		b := buf[:need]
 		pre := 0
@@ -135,8 +147,10 @@ func writer(conn net.Conn, seed int64, sess, dir int, sizes []int, tag []byte, r
 		}
 		FillStream(b[pre:], seed, sess, dir, off)
 		n, err := conn.Write(b)
-		for j := range b {
-			b[j] = 0xA5 // scribble
+		if sess%2 == 0 {
+			for j := range b {
+				b[j] = 0xA5 // scribble
+			}
 		}
 		n -= pre
 		if n < 0 {
@@ -147,6 +161,9 @@ func writer(conn net.Conn, seed int64, sess, dir int, sizes []int, tag []byte, r
 		if err != nil {
 			res.WriteErr = err.Error()
 			return
+		}
+		if gapUs > 0 {
+			time.Sleep(time.Duration(gapUs) * time.Microsecond)
 		}
 	}
 }
@@ -263,7 +280,7 @@ func RunTransfer(w Endpoints, scripts []Script, seed int64, timeout time.Duratio
 				inner.Add(2)
 				go func() {
 					defer inner.Done()
-					writer(conn, seed, k, 1, sc.ServerWrites, nil, &sr.S2C)
+					writerPaced(conn, seed, k, 1, sc.ServerWrites, nil, &sr.S2C, sc.WriteGapUs)
 				}()
 				go func() {
 					defer inner.Done()
@@ -304,7 +321,7 @@ func RunTransfer(w Endpoints, scripts []Script, seed int64, timeout time.Duratio
 			}
 			go func() {
 				defer inner.Done()
-				writer(conn, seed, k, 0, cw, tagBytes, &sr.C2S)
+				writerPaced(conn, seed, k, 0, cw, tagBytes, &sr.C2S, sc.WriteGapUs)
 				if sc.ClientClose {
 					// wait for our own reads first, else closing would cut the server's stream
 				}
